@@ -53,6 +53,14 @@ def main(job_path, out_path):
         elif n % 3 == 1:
             Generator(rnd, RegexGenerator(rnd, max_repeat=3))
             d42.validate(d42.schema.list(d42.schema.int), [1, "a"])
+            # generations that end in an exception, from inside nested containers
+            for bad in (d42.schema.list(d42.schema.float.min(0.11).max(0.12).precision(1)).len(2),
+                        d42.schema.dict({"a": d42.schema.list(d42.schema.str.alphabet("")).len(1)}),
+                        d42.schema.list(d42.schema.list(d42.schema.str.regex("[^ -~]")).len(1)).len(1)):
+                try:
+                    d42.fake(bad)
+                except Exception:
+                    pass
         else:
             d42.substitute(d42.schema.dict({"a": d42.schema.int}), {"a": 1})
             repr(d42.schema.str.regex(r"[^a]\d"))
